@@ -287,6 +287,9 @@ func runC13(r *Run) {
 		}
 		var out strings.Builder
 		nontrivial := false
+		if l.Contains(netip.Addr{}) {
+			r.Fail("Contains(the zero netip.Addr, which is no address) = true", map[string]any{"prefixes": pops})
+		}
 		for _, a := range as {
 			got := l.Contains(a.netip())
 			want := false
